@@ -59,7 +59,7 @@ func (l *leanPair) mix(b []byte) {
 
 func (l *leanPair) fresh(i int, pol int, frag int) {
 	c := &otr3.Conversation{}
-	c.SetOurKeys([]otr3.PrivateKey{TestKey(int(l.seed%3)*2 + i)})
+	c.SetOurKeys([]otr3.PrivateKey{SharedKey(int(l.seed%3)*2 + i)}) // one key object per account, shared by its conversations
 	h := leanHandlers{l}
 	c.SetSMPEventHandler(h)
 	c.SetMessageEventHandler(h)
@@ -228,6 +228,9 @@ func c20Hammer(rc *RunCtx) *Violation {
 	// the shared progress counter while the goroutines are running
 	g := 2 + rc.Cfg["pairs"]
 	rounds := 2 + rc.Cfg["len"]%3
+	for i := 0; i < 6; i++ {
+		SharedKey(i) // all key objects exist before the goroutines start
+	}
 	par := make([]*leanPair, g)
 	for i := range par {
 		par[i] = newLeanPair(Mix(rc.Seed, "lean", uint64(i)))
